@@ -318,6 +318,11 @@ pub fn crash_inproc(m: &BTreeMap<String, String>) -> serde_json::Value {
     let viol: Arc<Mutex<Vec<serde_json::Value>>> = Arc::new(Mutex::new(vec![]));
     let calls = std::sync::atomic::AtomicU64::new(0);
     let do_complete = geti(m, "complete", 1) != 0;
+    // --only a,b,c: restrict to these entry points (used for unterminated nesting ladders, which are not valid input for
+    // the word / arithmetic / pattern parsers called directly - the tokenizer never hands them such text)
+    let only: Option<std::collections::HashSet<String>> =
+        m.get("only").map(|s| s.split(',').map(|x| x.trim().to_string()).collect());
+    let only = &only;
     std::thread::scope(|s| {
         for t in 0..n {
             let lines = Arc::clone(&lines);
@@ -340,10 +345,12 @@ pub fn crash_inproc(m: &BTreeMap<String, String>) -> serde_json::Value {
                     };
                     macro_rules! guard {
                         ($ep:expr, $cur:expr, $body:expr) => {{
-                            watch.set(t, &format!("{} {:?} cursor {}", $ep, line, $cur));
-                            calls.fetch_add(1, Ordering::Relaxed);
-                            if let Err(e) = catch_unwind(AssertUnwindSafe(|| $body)) {
-                                report($ep, $cur, format!("panic: {}", panic_msg(e)));
+                            if only.as_ref().map_or(true, |o| o.contains($ep)) {
+                                watch.set(t, &format!("{} {:?} cursor {}", $ep, line, $cur));
+                                calls.fetch_add(1, Ordering::Relaxed);
+                                if let Err(e) = catch_unwind(AssertUnwindSafe(|| $body)) {
+                                    report($ep, $cur, format!("panic: {}", panic_msg(e)));
+                                }
                             }
                         }};
                     }
